@@ -547,7 +547,7 @@ Qed.
 Lemma burst_from_empty s b now h :
   b <> [] ->
   Forall (fun e => now < t_deadline e) (a_history s) -> (length (a_history s) <= 2)%nat ->
-  a_pending s = None -> nd h (a_previous s) -> h_text h <> PREFIX_MESSAGE_END ->
+  a_pending s = None -> nd h (prune_previous (a_previous s) now) -> h_text h <> PREFIX_MESSAGE_END ->
   let c := combine (map t_data (a_history s ++ [entry b now])) in
   (forall h2, c = Some (Ok (SOM h2)) -> h_voting h2 <= h_voting h) ->
   exists t pend' prev',
@@ -560,7 +560,7 @@ Lemma burst_from_empty s b now h :
 Proof.
   intros Hb Hh Hl Hp Hn Ht c Hv. rewrite assemble_live by assumption. cbv zeta.
   fold c. rewrite Hp.
-  pose proof (nd_prune h _ now Hn) as Hn'. pose proof MIS_pos as Hpos.
+  pose proof Hn as Hn'. pose proof MIS_pos as Hpos.
   destruct c as [[[h2|]|e]|] eqn:Ec; cbn [deduplicate].
   - destruct (is_not_duplicate _ (SOM h2)).
     + cbn [pending_accept]. unfold pending_poll, is_expired_at. cbn [t_deadline t_data].
@@ -638,7 +638,7 @@ Qed.
     when the hold after the second burst runs out; [b1]/[b2] are whatever the link layer
     delivered (any bytes, any junk after the header) as long as they combine to [h] *)
 Theorem two_bursts_one_som prev0 b1 b2 t1 t2 polls1 polls2 h :
-  b1 <> [] -> b2 <> [] -> nd h prev0 -> h_text h <> PREFIX_MESSAGE_END ->
+  b1 <> [] -> b2 <> [] -> nd h (prune_previous prev0 t1) -> h_text h <> PREFIX_MESSAGE_END ->
   t2 < t1 + MAX_HISTORY_DURATION ->
   combine [trunc b1; trunc b2] = Some (Ok (SOM h)) ->
   Forall (fun n => n < t1 + MAX_HISTORY_DURATION) polls1 ->
@@ -680,7 +680,7 @@ Definition votes_le (bs : list bytes) (h : header) : Prop :=
     whatever the first two establish between them (nothing, an error, a shorter header), the
     header [h] that the three combine to is reported once, 682 symbols after the third *)
 Theorem three_bursts_one_som prev0 b1 b2 b3 t1 t2 t3 polls1 polls2 polls3 h :
-  b1 <> [] -> b2 <> [] -> b3 <> [] -> nd h prev0 -> h_text h <> PREFIX_MESSAGE_END ->
+  b1 <> [] -> b2 <> [] -> b3 <> [] -> nd h (prune_previous prev0 t1) -> h_text h <> PREFIX_MESSAGE_END ->
   t2 < t1 + MAX_HISTORY_DURATION -> t3 < t1 + MAX_HISTORY_DURATION -> t1 <= t2 -> t2 <= t3 ->
   combine [trunc b1; trunc b2; trunc b3] = Some (Ok (SOM h)) ->
   votes_le [trunc b1; trunc b2] h ->
@@ -715,7 +715,7 @@ Proof.
   rewrite asm_run_cons. cbn [asm_op op_time fst snd].
   destruct (burst_from_empty (mkAsm [entry b1 t1] None prev1) b2 t2 h Hb2)
     as (u & pend2 & prev2 & E2 & Hn2 & Hns2 & Hw2 & Hd2 & _ & _);
-    [constructor; [unfold entry; cbn [t_deadline]; exact Ht2|constructor]|cbn; lia|reflexivity|exact Hn1|exact Ht|exact Hv|].
+    [constructor; [unfold entry; cbn [t_deadline]; exact Ht2|constructor]|cbn; lia|reflexivity|apply nd_prune, Hn1|exact Ht|exact Hv|].
   rewrite E2. cbn [fst snd a_history app keep_last2].
   rewrite som_reports_cons_other by exact Hns2.
   rewrite asm_run_app. cbn [fst snd].
@@ -736,3 +736,420 @@ Proof.
   rewrite som_reports_polls. cbn [a_pending t_data t_deadline]. reflexivity.
 Qed.
 
+
+(** a header heard in one burst only is never reported, whatever polling surrounds it *)
+Lemma polls_keep_empty : forall polls s, a_pending s = None -> a_history s = [] ->
+  a_pending (snd (asm_run s (map OIdle polls))) = None
+  /\ a_history (snd (asm_run s (map OIdle polls))) = [].
+Proof.
+  induction polls as [|n polls IH]; intros s Hp Hh; [split; assumption|].
+  cbn [map]. rewrite asm_run_cons. cbn [snd asm_op]. apply IH.
+  - destruct (idle_cases s n) as [(p & Ep & _)|(_ & He & _)]; [rewrite Hp in Ep; discriminate|].
+    rewrite He. exact Hp.
+  - unfold asm_idle. rewrite Hh. cbn [prune_history filter keep_last2].
+    destruct (pending_poll (a_pending s) n) as [[[m|e]|] p]; reflexivity.
+Qed.
+
+Theorem one_burst_no_som prev0 b t polls1 polls2 :
+  som_reports (fst (asm_run (mkAsm [] None prev0)
+     (map OIdle polls1 ++ OBurst b t :: map OIdle polls2))) = [].
+Proof.
+  rewrite asm_run_app. cbn [fst snd]. rewrite som_reports_app, som_reports_polls. cbn [a_pending app].
+  destruct (polls_keep_empty polls1 (mkAsm [] None prev0) eq_refl eq_refl) as [Hp Hh].
+  set (s1 := snd (asm_run _ (map OIdle polls1))) in *.
+  rewrite asm_run_cons. cbn [asm_op op_time fst snd].
+  destruct b as [|b0 b'].
+  - cbn [asm_assemble].
+    destruct (idle_cases s1 t) as [(p & Ep & _)|(_ & He & _ & Hf)]; [rewrite Hp in Ep; discriminate|].
+    rewrite som_reports_cons_other by (intros hh E; exact (Hf _ E)).
+    rewrite som_reports_polls, He, Hp. reflexivity.
+  - rewrite assemble_live; [|discriminate|rewrite Hh; constructor|rewrite Hh; cbn [length]; repeat constructor].
+    cbv zeta. rewrite Hh, Hp. cbn [app map t_data entry].
+    destruct (combine_one_never_header (trunc (b0 :: b'))) as [C|C]; rewrite C; cbn [deduplicate].
+    + cbn [pending_poll fst snd]. rewrite som_reports_cons_other by discriminate.
+      rewrite som_reports_polls. reflexivity.
+    + destruct (is_not_duplicate _ EOM).
+      * cbn [pending_accept]. unfold pending_poll, is_expired_at. cbn [t_deadline t_data].
+        rewrite N.leb_refl. cbn [fst snd]. rewrite som_reports_cons_other by discriminate.
+        rewrite som_reports_polls. reflexivity.
+      * cbn [pending_poll fst snd]. rewrite som_reports_cons_other by discriminate.
+        rewrite som_reports_polls. reflexivity.
+Qed.
+
+(** two bursts never give voting bytes, so whatever header they establish is replaced by
+    the one that three bursts establish *)
+Lemma combine_two_voting_zero A B h :
+  all_bytes A = true -> all_bytes B = true ->
+  combine [A; B] = Some (Ok (SOM h)) -> h_voting h = 0.
+Proof.
+  intros HA HB E.
+  destruct (combine_som_backed [A; B] h) as (_ & _ & _ & Hv); [cbn; lia|repeat constructor; assumption|exact E|].
+  rewrite Hv. unfold index_sum. generalize (seq 0 (length (h_text h))). intros l.
+  induction l as [|i l IH]; [reflexivity|]. cbn [map Nsum fold_right]. fold (Nsum (map (fun i0 : nat => b2n (3 <=? N.of_nat (length (column i0 [A; B])))) l)).
+  rewrite IH. unfold column. cbn [flat_map]. rewrite app_nil_r.
+  destruct (nth_error A i), (nth_error B i); reflexivity.
+Qed.
+
+(** * C02 instantiated with C03: two intact copies of a header and anything else *)
+Lemma ascii_all_bytes s : is_ascii s = true -> all_bytes s = true.
+Proof.
+  unfold is_ascii, all_bytes. rewrite !forallb_forall. intros H x Hx. specialize (H x Hx).
+  unfold is_byte. lia.
+Qed.
+
+Lemma all_bytes_firstn n : forall s, all_bytes s = true -> all_bytes (firstn n s) = true.
+Proof.
+  unfold all_bytes. induction n as [|n IH]; intros [|x s] H; cbn [firstn forallb] in *; try reflexivity.
+  apply andb_true_iff in H. destruct H as [H1 H2]. rewrite H1, (IH s H2). reflexivity.
+Qed.
+
+Lemma trunc_short s : (length s <= MAX_MESSAGE_LENGTH)%nat -> trunc s = s.
+Proof. intros H. unfold trunc. apply firstn_all2, H. Qed.
+
+Definition nth_burst (p : pos3) (H X : bytes) (i : nat) : bytes := nth i (arr p H X) [].
+
+(** A canonical header [H] is sent three times; one copy, in any position, is replaced by an
+    arbitrary non-empty burst [X] (any byte values, any length); polling between bursts stops
+    before the hold of the second burst runs out (it does: the next preamble is at most
+    1.05 s + sync latency away).  Then exactly one StartOfMessage is reported, its text is [H],
+    its counters are those of C03, and it is released by the first poll at or after
+    682 symbols after the end of the third burst. *)
+Theorem header_two_of_three p H X h0 prev0 t1 t2 t3 polls1 polls2 polls3 :
+  header_new H = Ok h0 -> h_text h0 = H -> forallb is_allowed_byte H = true ->
+  (length H <= MAX_MESSAGE_LENGTH)%nat -> all_bytes X = true -> X <> [] ->
+  nd h0 (prune_previous prev0 t1) ->
+  t1 <= t2 -> t2 <= t3 -> t3 < t1 + MAX_HISTORY_DURATION ->
+  Forall (fun n => n < t1 + MAX_HISTORY_DURATION) polls1 ->
+  Forall (fun n => n < t2 + MAX_INTERBURST_SYMBOLS /\ n < t1 + MAX_HISTORY_DURATION) polls2 ->
+  som_reports (fst (asm_run (mkAsm [] None prev0)
+        (OBurst (nth_burst p H X 0) t1 :: map OIdle polls1
+         ++ OBurst (nth_burst p H X 1) t2 :: map OIdle polls2
+         ++ OBurst (nth_burst p H X 2) t3 :: map OIdle polls3)))
+  = match find (fun n => t3 + MAX_INTERBURST_SYMBOLS <=? n) polls3 with
+    | Some tf => [(tf, mkHeader H (h_offset_time h0) (parity_spec H (trunc X)) (voting_spec H (trunc X)))]
+    | None => []
+    end.
+Proof.
+  intros Hnew Htext Hall Hlen HX HXne Hnd H12 H23 H31 Hp1 Hp2.
+  assert (H <> []) as HHne.
+  { rewrite <- Htext. eapply header_new_text_nonempty, Hnew. }
+  assert (trunc X <> []) as HtX.
+  { unfold trunc. destruct X as [|x X']; [contradiction|].
+    assert (MAX_MESSAGE_LENGTH = S (pred MAX_MESSAGE_LENGTH)) as -> by reflexivity. discriminate. }
+  assert (all_bytes (trunc X) = true) as HXt by (apply all_bytes_firstn, HX).
+  assert (all_bytes H = true) as HHb by (apply ascii_all_bytes, forallb_allowed_ascii, Hall).
+  pose proof (combine_two_good p H (trunc X) h0 Hnew Htext Hall Hlen HXt) as Hc.
+  set (h := mkHeader H (h_offset_time h0) (parity_spec H (trunc X)) (voting_spec H (trunc X))) in *.
+  assert (nd h (prune_previous prev0 t1)) as Hnd' by (unfold nd, is_not_duplicate in *; cbn [message_as_str h h_text] in *; rewrite Htext in Hnd; exact Hnd).
+  assert (h_text h <> PREFIX_MESSAGE_END) as Hne.
+  { cbn [h h_text]. destruct (header_new_ok_inv _ _ Hnew) as (_ & n & Hchk & _).
+    pose proof (check_header_starts H _ Hchk) as Hs. intros E. rewrite E in Hs. discriminate. }
+  assert (forall A B, all_bytes A = true -> all_bytes B = true -> votes_le [A; B] h) as Hvz.
+  { intros A B HA HB h2 E. rewrite (combine_two_voting_zero A B h2 HA HB E). lia. }
+  assert (t2 < t1 + MAX_HISTORY_DURATION) as H21 by (clear - H23 H31; lia).
+  assert (nth_burst p H X 0 <> [] /\ nth_burst p H X 1 <> [] /\ nth_burst p H X 2 <> []) as (N0 & N1 & N2).
+  { destruct p; cbn [nth_burst arr nth]; repeat split; assumption. }
+  apply (three_bursts_one_som prev0 _ _ _ t1 t2 t3 polls1 polls2 polls3 h N0 N1 N2 Hnd' Hne H21 H31 H12 H23);
+    [| |exact Hp1|exact Hp2].
+  - destruct p; cbn [nth_burst arr nth]; rewrite ?(trunc_short H Hlen); exact Hc.
+  - destruct p; cbn [nth_burst arr nth]; rewrite ?(trunc_short H Hlen); apply Hvz; assumption.
+Qed.
+
+Lemma estimate_loop_empty_tail fuel : forall bs, estimate_loop fuel (bs ++ [[]]) = estimate_loop fuel bs.
+Proof.
+  induction fuel as [|f IH]; intros bs; [reflexivity|]. cbn [estimate_loop].
+  assert (heads (bs ++ [[]]) = heads bs) as ->.
+  { unfold heads. rewrite flat_map_app. cbn [flat_map]. rewrite app_nil_r. reflexivity. }
+  assert (tails (bs ++ [[]]) = tails bs ++ [[]]) as ->.
+  { unfold tails. rewrite map_app. reflexivity. }
+  rewrite IH. reflexivity.
+Qed.
+
+Lemma combine_HH_empty A B : combine [A; B; []] = combine [A; B].
+Proof.
+  unfold combine, estimate_message. cbn [firstn].
+  change [A; B; []] with ([A; B] ++ [[]]). rewrite estimate_loop_empty_tail. reflexivity.
+Qed.
+
+(** the same header in two bursts only (one of the three lost): reported once, 682 symbols
+    after the second, with no voting bytes and no bit errors *)
+Theorem header_two_bursts H h0 prev0 t1 t2 polls1 polls2 :
+  header_new H = Ok h0 -> h_text h0 = H -> forallb is_allowed_byte H = true ->
+  (length H <= MAX_MESSAGE_LENGTH)%nat -> nd h0 (prune_previous prev0 t1) ->
+  t2 < t1 + MAX_HISTORY_DURATION ->
+  Forall (fun n => n < t1 + MAX_HISTORY_DURATION) polls1 ->
+  som_reports (fst (asm_run (mkAsm [] None prev0)
+        (OBurst H t1 :: map OIdle polls1 ++ OBurst H t2 :: map OIdle polls2)))
+  = match find (fun n => t2 + MAX_INTERBURST_SYMBOLS <=? n) polls2 with
+    | Some tf => [(tf, mkHeader H (h_offset_time h0) (parity_spec H []) (voting_spec H []))]
+    | None => []
+    end.
+Proof.
+  intros Hnew Htext Hall Hlen Hnd H21 Hp1.
+  assert (H <> []) as HHne by (rewrite <- Htext; eapply header_new_text_nonempty, Hnew).
+  pose proof (combine_two_good P2 H [] h0 Hnew Htext Hall Hlen eq_refl) as Hc.
+  cbn [arr] in Hc. rewrite combine_HH_empty in Hc.
+  set (h := mkHeader H (h_offset_time h0) (parity_spec H []) (voting_spec H [])) in *.
+  assert (nd h (prune_previous prev0 t1)) as Hnd' by (unfold nd, is_not_duplicate in *; cbn [message_as_str h h_text] in *; rewrite Htext in Hnd; exact Hnd).
+  assert (h_text h <> PREFIX_MESSAGE_END) as Hne.
+  { cbn [h h_text]. destruct (header_new_ok_inv _ _ Hnew) as (_ & n & Hchk & _).
+    pose proof (check_header_starts H _ Hchk) as Hs. intros E. rewrite E in Hs. discriminate. }
+  apply (two_bursts_one_som prev0 H H t1 t2 polls1 polls2 h HHne HHne Hnd' Hne H21); [|exact Hp1].
+  rewrite (trunc_short H Hlen). exact Hc.
+Qed.
+
+(** * End-of-message: what bursts combine to it, and the trailer scenario *)
+Lemma estimate_step_allowed col e : estimate_step col = Some e -> is_allowed_byte (e_byte e) = true.
+Proof.
+  unfold estimate_step.
+  destruct (match map mask7 col with
+            | [] => None | [a] => Some (a, 0) | [a; b] => Some (bit_vote_detect a b)
+            | [a; b; c] => Some (bit_vote_correct a b c) | _ => None end) as [[est errs]|]; [|discriminate].
+  destruct (is_allowed_byte est) eqn:A; [|discriminate]. intros E; inversion E; subst. exact A.
+Qed.
+
+Lemma estimate_loop_allowed fuel : forall bs,
+  forallb is_allowed_byte (map e_byte (estimate_loop fuel bs)) = true.
+Proof.
+  induction fuel as [|f IH]; intros bs; [reflexivity|]. cbn [estimate_loop].
+  destruct (estimate_step (heads bs)) as [e|] eqn:E; [|reflexivity].
+  cbn [map forallb]. rewrite (estimate_step_allowed _ _ E), IH. reflexivity.
+Qed.
+
+Lemma forallb_prefix {A} (f : A -> bool) p l : prefix p l -> forallb f l = true -> forallb f p = true.
+Proof. intros (r & ->). rewrite forallb_app. intros H. apply andb_prop in H. tauto. Qed.
+
+(** whenever the estimate starts with "NN" the bursts combine to an EndOfMessage, however many
+    bursts back each byte *)
+Lemma combine_eom_of_estimate bs c1 e1 c2 e2 L :
+  estimate_loop MAX_MESSAGE_LENGTH (firstn 3 bs) = (78, c1, e1) :: (78, c2, e2) :: L ->
+  combine bs = Some (Ok EOM).
+Proof.
+  intros E. unfold combine, estimate_message. rewrite E.
+  pose proof (estimate_loop_allowed MAX_MESSAGE_LENGTH (firstn 3 bs)) as Hall. rewrite E in Hall.
+  change (map (fun e : N * N * N => fst (fst e))) with (map e_byte) in *.
+  change (map (fun e : N * N * N => snd (fst e))) with (map e_count).
+  rewrite truncate_entries.
+  set (ent := (78, c1, e1) :: (78, c2, e2) :: L) in *.
+  set (good := map e_byte (take_while (fun e => 2 <=? e_count e) ent)).
+  assert (valid_utf8 good = true) as Hv.
+  { apply valid_utf8_ascii, forallb_allowed_ascii. unfold good.
+    eapply forallb_prefix; [|exact Hall].
+    destruct (take_while_prefix (fun e => 2 <=? e_count e) ent) as (r & Hr).
+    exists (map e_byte r). rewrite <- map_app, <- Hr. reflexivity. }
+  cbn [map e_byte fst ent]. unfold message_try_from_bytes. rewrite Hv. cbn [negb].
+  unfold good, ent. cbn [take_while e_count fst snd].
+  destruct (2 <=? c1); [destruct (2 <=? c2)|]; cbn [map e_byte fst starts_with PREFIX_MESSAGE_START PREFIX_EOM2 N.eqb Pos.eqb andb];
+    reflexivity.
+Qed.
+
+Definition starts_NN (b : bytes) : Prop :=
+  exists x y r, b = x :: y :: r /\ mask7 x = 78 /\ mask7 y = 78.
+
+Lemma MAX_SS : MAX_MESSAGE_LENGTH = S (S (pred (pred MAX_MESSAGE_LENGTH))). Proof. reflexivity. Qed.
+
+(** one, two or three bursts that all start with "NN" (eighth bit ignored) *)
+Lemma combine_NN bs :
+  (1 <= length bs <= 3)%nat -> Forall starts_NN bs -> combine bs = Some (Ok EOM).
+Proof.
+  intros Hl Hf.
+  destruct bs as [|b1 [|b2 [|b3 [|b4 r]]]]; cbn [length] in Hl; try lia.
+  - inversion Hf as [|? ? (x1 & y1 & r1 & -> & Hx1 & Hy1) _]; subst.
+    eapply combine_eom_of_estimate. cbn [firstn]. rewrite MAX_SS. cbn [estimate_loop heads tails flat_map app map tl].
+    unfold estimate_step. cbn [map existsb]. rewrite Hx1, Hy1. cbn [is_allowed_byte]. reflexivity.
+  - inversion Hf as [|? ? (x1 & y1 & r1 & -> & Hx1 & Hy1) Hf2]; subst.
+    inversion Hf2 as [|? ? (x2 & y2 & r2 & -> & Hx2 & Hy2) _]; subst.
+    eapply combine_eom_of_estimate. cbn [firstn]. rewrite MAX_SS. cbn [estimate_loop heads tails flat_map app map tl].
+    unfold estimate_step. cbn [map existsb]. rewrite Hx1, Hy1, Hx2, Hy2.
+    change (bit_vote_detect 78 78) with (78, 0). cbn [is_allowed_byte]. reflexivity.
+  - inversion Hf as [|? ? (x1 & y1 & r1 & -> & Hx1 & Hy1) Hf2]; subst.
+    inversion Hf2 as [|? ? (x2 & y2 & r2 & -> & Hx2 & Hy2) Hf3]; subst.
+    inversion Hf3 as [|? ? (x3 & y3 & r3 & -> & Hx3 & Hy3) _]; subst.
+    eapply combine_eom_of_estimate. cbn [firstn]. rewrite MAX_SS. cbn [estimate_loop heads tails flat_map app map tl].
+    unfold estimate_step. cbn [map existsb]. rewrite Hx1, Hy1, Hx2, Hy2, Hx3, Hy3.
+    change (bit_vote_correct 78 78 78) with (78, 0). cbn [is_allowed_byte]. reflexivity.
+Qed.
+
+Lemma starts_NN_trunc b : starts_NN b -> starts_NN (trunc b).
+Proof.
+  intros (x & y & r & -> & Hx & Hy). unfold trunc. rewrite MAX_SS. cbn [firstn].
+  eexists _, _, _. split; [reflexivity|split; assumption].
+Qed.
+
+Lemma starts_NN_nonempty b : starts_NN b -> b <> [].
+Proof. intros (x & y & r & -> & _). discriminate. Qed.
+
+(** a burst that establishes an EndOfMessage while the last report was an EndOfMessage that
+    has not expired: suppressed, nothing changes but the history *)
+Lemma burst_duplicate_eom s b now d :
+  b <> [] ->
+  Forall (fun e => now < t_deadline e) (a_history s) -> (length (a_history s) <= 2)%nat ->
+  a_pending s = None -> a_previous s = Some (mkTimed EOM d) -> now < d ->
+  combine (map t_data (a_history s ++ [entry b now])) = Some (Ok EOM) ->
+  asm_assemble s b now =
+  (TAssembling, mkAsm (keep_last2 (a_history s ++ [entry b now])) None (Some (mkTimed EOM d))).
+Proof.
+  intros Hb Hh Hl Hp Hprev Hd Hc. rewrite assemble_live by assumption. cbv zeta.
+  rewrite Hc, Hprev, Hp. unfold prune_previous, is_expired_at. cbn [t_deadline].
+  assert ((d <=? now) = false) as -> by lia. reflexivity.
+Qed.
+
+(** The trailer after a quiet channel: three "NNNN" bursts (any junk after the first two
+    characters), the last no later than the duplicate window after the first.  Exactly one
+    message comes out of the whole history: the EndOfMessage, returned by the assemble call of
+    the FIRST burst (fast EOM).  Bursts two and three are suppressed as duplicates. *)
+Theorem trailer_one_eom prev0 n1 n2 n3 t1 t2 t3 polls1 polls2 polls3 :
+  starts_NN n1 -> starts_NN n2 -> starts_NN n3 ->
+  (forall now, is_not_duplicate (prune_previous prev0 now) EOM = true) ->
+  t1 <= t2 -> t2 <= t3 -> t3 < t1 + MAX_HISTORY_DURATION ->
+  Forall (fun n => n < t1 + MAX_HISTORY_DURATION) polls1 ->
+  Forall (fun n => n < t1 + MAX_HISTORY_DURATION) polls2 ->
+  msgs (fst (asm_run (mkAsm [] None prev0)
+        (OBurst n1 t1 :: map OIdle polls1 ++ OBurst n2 t2 :: map OIdle polls2
+           ++ OBurst n3 t3 :: map OIdle polls3)))
+  = [(t1, Ok EOM)].
+Proof.
+  intros S1 S2 S3 Hnd H12 H23 H31 Hp1 Hp2.
+  pose proof (starts_NN_nonempty _ S1) as N1. pose proof (starts_NN_nonempty _ S2) as N2.
+  pose proof (starts_NN_nonempty _ S3) as N3.
+  apply starts_NN_trunc in S1, S2, S3.
+  (* first burst *)
+  assert (asm_assemble (mkAsm [] None prev0) n1 t1
+          = (TMessage (Ok EOM), mkAsm [entry n1 t1] None (Some (mkTimed EOM (t1 + MAX_HISTORY_DURATION))))) as E1.
+  { rewrite assemble_live; [|exact N1|constructor|cbn [a_history length]; repeat constructor].
+    cbv zeta. cbn [a_history a_pending a_previous app map t_data entry].
+    rewrite (combine_NN [trunc n1]); [|cbn [length]; lia|repeat constructor; assumption].
+    cbn [deduplicate]. rewrite Hnd. cbn [pending_accept].
+    unfold pending_poll, is_expired_at. cbn [t_deadline t_data]. rewrite N.leb_refl. reflexivity. }
+  rewrite asm_run_cons. cbn [asm_op op_time fst snd]. rewrite E1.
+  cbn [fst snd msgs]. f_equal.
+  rewrite asm_run_app. cbn [fst snd]. rewrite msgs_app.
+  rewrite polls_noop.
+  2:{ eapply Forall_impl; [|exact Hp1]. cbn. intros n Hn0. split; [intros p Hp; discriminate|].
+      constructor; [exact Hn0|constructor]. }
+  2:{ cbn [a_history length]; repeat constructor. }
+  cbn [fst snd]. rewrite msgs_idle_out. cbn [app].
+  (* second burst *)
+  rewrite asm_run_cons. cbn [asm_op op_time fst snd].
+  rewrite (burst_duplicate_eom _ n2 t2 (t1 + MAX_HISTORY_DURATION)); try reflexivity; try assumption.
+  2:{ constructor; [unfold entry; cbn [t_deadline]; lia|constructor]. }
+  2:{ cbn [a_history length]; repeat constructor. }
+  2:{ lia. }
+  2:{ cbn [a_history app map t_data entry]. apply combine_NN; [cbn [length]; lia|repeat constructor; assumption]. }
+  cbn [fst snd msgs a_history app keep_last2].
+  rewrite asm_run_app. cbn [fst snd]. rewrite msgs_app.
+  rewrite polls_noop.
+  2:{ eapply Forall_impl; [|exact Hp2]. cbn. intros n Hn0. split; [intros p Hp; discriminate|].
+      constructor; [exact Hn0|]. constructor; [unfold entry; cbn [t_deadline]; lia|constructor]. }
+  2:{ cbn [a_history length]; repeat constructor. }
+  cbn [fst snd]. rewrite msgs_idle_out. cbn [app].
+  (* third burst *)
+  rewrite asm_run_cons. cbn [asm_op op_time fst snd].
+  rewrite (burst_duplicate_eom _ n3 t3 (t1 + MAX_HISTORY_DURATION)); try reflexivity; try assumption.
+  2:{ constructor; [unfold entry; cbn [t_deadline]; lia|]. constructor; [unfold entry; cbn [t_deadline]; pose proof MHD_pos; lia|constructor]. }
+  2:{ cbn [a_history app map t_data entry]. apply combine_NN; [cbn [length]; lia|repeat constructor; assumption]. }
+  cbn [fst snd msgs].
+  rewrite polls_msgs. reflexivity.
+Qed.
+
+(** * C05: re-report after the window; order of two transmissions *)
+Lemma nd_expired h m d now : d <= now -> nd h (prune_previous (Some (mkTimed m d)) now).
+Proof.
+  intros H. unfold prune_previous, is_expired_at. cbn [t_deadline].
+  assert ((d <=? now) = true) as -> by lia. reflexivity.
+Qed.
+
+(** the same header transmitted again after the duplicate record of its report has expired
+    (report time + MAX_HISTORY_DURATION <= end of the first new burst) is reported again *)
+Corollary header_rereported_after_window p H X h0 hprev treport t1 t2 t3 polls1 polls2 polls3 :
+  header_new H = Ok h0 -> h_text h0 = H -> forallb is_allowed_byte H = true ->
+  (length H <= MAX_MESSAGE_LENGTH)%nat -> all_bytes X = true -> X <> [] ->
+  h_text hprev = H -> treport + MAX_HISTORY_DURATION <= t1 ->
+  t1 <= t2 -> t2 <= t3 -> t3 < t1 + MAX_HISTORY_DURATION ->
+  Forall (fun n => n < t1 + MAX_HISTORY_DURATION) polls1 ->
+  Forall (fun n => n < t2 + MAX_INTERBURST_SYMBOLS /\ n < t1 + MAX_HISTORY_DURATION) polls2 ->
+  som_reports (fst (asm_run (mkAsm [] None (Some (mkTimed (SOM hprev) (treport + MAX_HISTORY_DURATION))))
+        (OBurst (nth_burst p H X 0) t1 :: map OIdle polls1
+         ++ OBurst (nth_burst p H X 1) t2 :: map OIdle polls2
+         ++ OBurst (nth_burst p H X 2) t3 :: map OIdle polls3)))
+  = match find (fun n => t3 + MAX_INTERBURST_SYMBOLS <=? n) polls3 with
+    | Some tf => [(tf, mkHeader H (h_offset_time h0) (parity_spec H (trunc X)) (voting_spec H (trunc X)))]
+    | None => []
+    end.
+Proof.
+  intros Hnew Htext Hall Hlen HX HXne _ Hexp. apply header_two_of_three; try assumption.
+  apply nd_expired, Hexp.
+Qed.
+
+(** * Witnesses: statements that are FALSE of the faithful model (known findings) *)
+Definition str_A : bytes :=   (* "ZCZC-EAS-DMO-999000+0015-0011122-NOCALL00-" *)
+  [90;67;90;67;45;69;65;83;45;68;77;79;45;57;57;57;48;48;48;43;48;48;49;53;45;48;48;49;49;49;50;50;45;78;79;67;65;76;76;48;48;45].
+Definition str_B : bytes :=   (* "ZCZC-WXR-TOR-039173+0030-0011122-KCLE/NWS-" *)
+  [90;67;90;67;45;87;88;82;45;84;79;82;45;48;51;57;49;55;51;43;48;48;51;48;45;48;48;49;49;49;50;50;45;75;67;76;69;47;78;87;83;45].
+Definition str_N : bytes := [78;78;78;78].
+
+(** idle is polled at every symbol from [a+1] to [b] *)
+Definition ticks (a b : N) : list aop := map (fun i => OIdle (a + N.of_nat i)) (seq 1 (N.to_nat (b - a))).
+
+(** bursts given as (gap from the end of the previous burst to the start of the preamble, bytes):
+    idle polled at every symbol until 50 symbols into the preamble, assemble at the burst end *)
+Fixpoint tx_ops (now : N) (bursts : list (N * bytes)) (tail : N) : list aop :=
+  match bursts with
+  | [] => ticks now (now + tail)
+  | (gap, d) :: r =>
+    let e := now + gap + (16 + N.of_nat (length d)) * 8 in
+    ticks now (now + gap + 50) ++ OBurst d e :: tx_ops e r tail
+  end.
+
+Definition report_kinds (outs : list (N * transport)) : list (N * N) :=   (* (time, 1=SOM A,2=SOM B,3=EOM,0=other) *)
+  map (fun r => (fst r, match snd r with
+                        | Ok (SOM h) => if list_eqb (h_text h) str_A then 1 else if list_eqb (h_text h) str_B then 2 else 0
+                        | Ok EOM => 3 | Err _ => 0 end)) (msgs outs).
+
+Definition SEC : N := 521.   (* one second of symbols, rounded *)
+
+(** F1 (C05/C02): header A three times, header B three times one second later, idle polled at
+    every symbol while the link is idle: A is never reported *)
+Example F1_following_header_displaces_pending :
+  report_kinds (fst (asm_run asm_init
+    (tx_ops 1000 [(SEC,str_A);(SEC,str_A);(SEC,str_A);(SEC,str_B);(SEC,str_B);(SEC,str_B)] 800)))
+  = [(7592, 2)].
+Proof. vm_compute. reflexivity. Qed.
+
+(** F2 (C02/C08): header bursts 1 and 3, trailer bursts 1 and 2 one second later: the
+    StartOfMessage is reported, the EndOfMessage never (6000 symbols of polling follow) *)
+Example F2_eom_refused_while_som_pending :
+  report_kinds (fst (asm_run asm_init
+    (tx_ops 1000 [(SEC,str_A);(SEC+SEC+(16+42)*8,str_A);(SEC,str_N);(SEC,str_N)] 6000)))
+  = [(5318, 1)].
+Proof. vm_compute. reflexivity. Qed.
+
+(** F3 (C08): the same header six times at one-second intervals: the report comes 682 symbols
+    after the SIXTH burst (first burst ends at 1985, third at 3955) *)
+Example F3_repeats_extend_the_hold :
+  report_kinds (fst (asm_run asm_init
+    (tx_ops 1000 [(SEC,str_A);(SEC,str_A);(SEC,str_A);(SEC,str_A);(SEC,str_A);(SEC,str_A)] 800)))
+  = [(7592, 1)].
+Proof. vm_compute. reflexivity. Qed.
+
+(** F8 (C02/C05): a full trailer, then an unrelated burst ending after the duplicate record of
+    the report expired but while trailer bursts 2 and 3 are still in the history: a second
+    EndOfMessage for one transmission *)
+Example F8_second_eom_from_stale_history :
+  report_kinds (fst (asm_run asm_init
+    (tx_ops 1000 [(SEC,str_N);(SEC,str_N);(SEC,str_N);(4272,str_B)] 800)))
+  = [(1681, 3); (7779, 3)].
+Proof. vm_compute. reflexivity. Qed.
+
+(** the ordinary case, for contrast: header x3, 2.5 s, trailer x3 *)
+Example normal_transmission :
+  report_kinds (fst (asm_run asm_init
+    (tx_ops 1000 [(SEC,str_A);(SEC,str_A);(SEC,str_A);(1300,str_N);(SEC,str_N);(SEC,str_N)] 800)))
+  = [(4637, 1); (6096, 3)].
+Proof. vm_compute. reflexivity. Qed.
+
+(** the hypotheses of the scenario theorems are satisfiable: [str_A] is a canonical header *)
+Example str_A_canonical :
+  exists h0, header_new str_A = Ok h0 /\ h_text h0 = str_A /\ forallb is_allowed_byte str_A = true
+             /\ (length str_A <= MAX_MESSAGE_LENGTH)%nat.
+Proof. eexists. split; [vm_compute; reflexivity|]. split; [reflexivity|]. split; [reflexivity|]. vm_compute. lia. Qed.
